@@ -8,6 +8,7 @@ import (
 	"time"
 
 	"github.com/jig/lisp"
+	"github.com/jig/lisp/lnotation"
 	"github.com/jig/lisp/types"
 )
 
@@ -56,7 +57,7 @@ func runRoutes(c *Case) Verdict {
 		globals = append(globals, g)
 	}
 	pre := contexts[c.Ctx]
-	routes := []string{"read-module", "read-nil", "ast", "reprint", "repl", "do", "load-file"}
+	routes := []string{"read-module", "read-nil", "ast", "lnotation", "reprint", "repl", "do", "load-file"}
 	for _, route := range routes {
 		ns, probe, err := NewLoadedEnv()
 		if err != nil {
@@ -100,6 +101,14 @@ func runRoutes(c *Case) Verdict {
 			case "ast":
 				for _, f := range c.Forms {
 					res, eerr = lisp.EVAL(ctx, ToMal(f), ns)
+					if eerr != nil {
+						return
+					}
+				}
+			case "lnotation":
+				// the same AST built with the project's own L-notation helpers (lnotation.L, LS, V, HM, SET, S)
+				for _, f := range c.Forms {
+					res, eerr = lisp.EVAL(ctx, toMalL(f), ns)
 					if eerr != nil {
 						return
 					}
@@ -217,4 +226,44 @@ func runRoutes(c *Case) Verdict {
 	}
 	v.Verdict = "ok"
 	return v
+}
+
+// toMalL builds the AST of a form with the L-notation helpers of github.com/jig/lisp/lnotation.
+func toMalL(n Node) types.MalType {
+	switch n.T {
+	case "sym":
+		return lnotation.S(n.S)
+	case "list":
+		if len(n.Xs) > 0 && n.Xs[0].T == "sym" {
+			args := make([]types.MalType, 0, len(n.Xs)-1)
+			for _, x := range n.Xs[1:] {
+				args = append(args, toMalL(x))
+			}
+			return lnotation.LS(n.Xs[0].S, args...)
+		}
+		args := make([]types.MalType, 0, len(n.Xs))
+		for _, x := range n.Xs {
+			args = append(args, toMalL(x))
+		}
+		return lnotation.L(args...)
+	case "vec":
+		args := make([]types.MalType, 0, len(n.Xs))
+		for _, x := range n.Xs {
+			args = append(args, toMalL(x))
+		}
+		return lnotation.V(args)
+	case "map":
+		m := map[string]interface{}{}
+		for k, x := range n.M {
+			m[k] = toMalL(x)
+		}
+		return lnotation.HM(m)
+	case "set":
+		var ks []string
+		for k := range n.M {
+			ks = append(ks, k)
+		}
+		return lnotation.SET(ks)
+	}
+	return ToMal(n)
 }
